@@ -51,7 +51,7 @@ def bounds(tier):
         "dynamic_signatures": DYN,
         "constant_layouts": CONST,
         "storage_orders": "every permutation of the type set",
-        "boundary": ["eager (recording model, every intermediate input compared)", "jax.vmap over a batch axis (output compared)"],
+        "boundary": ["eager (recording model, every intermediate input compared)", "jax.vmap over a batch axis (output compared)", "int32-typed input with float predictions"],
         "d": [2] if tier == "quick" else [2, 3],
     }
 
@@ -74,6 +74,9 @@ def cases(tier, seed):
                     for past in pasts:
                         for n in ns:
                             out.append({"d": d, "dyn": dyn, "const": const, "order": list(order), "past": past, "n": n, "mode": "eager"})
+                # dtype variant: integer-typed input fields, a model with non-integer (float) predictions
+                for past in pasts:
+                    out.append({"d": d, "dyn": dyn, "const": const, "order": list(orders[0]), "past": past, "n": min(3, max(ns)), "mode": "int32"})
                 # vmap variant: storage order is re-sorted by jax, so only the value semantics is compared
                 for past in pasts:
                     out.append({"d": d, "dyn": dyn, "const": const, "order": list(orders[-1]), "past": past, "n": max(ns) - 1, "mode": "vmap"})
@@ -86,7 +89,7 @@ def _weights(kp, ch, lag):
     return 1 + (lag + 3 * ch + 5 * k + 7 * p) % 11
 
 
-def _model_core(blocks, order, dyn, const, past, xp, use_pos):
+def _model_core(blocks, order, dyn, const, past, xp, use_pos, frac=0.0):
     """blocks: dict kp -> array (channels, spatial, tensor) (xp = numpy or jax.numpy). Returns dict kp -> (c, spatial, tensor)."""
     # scalar cross term from every k=0 block (dynamic, constant and constant-only), channel-weighted
     cross = 0
@@ -112,7 +115,7 @@ def _model_core(blocks, order, dyn, const, past, xp, use_pos):
             acc = acc + xp.reshape(cross, cross.shape + (1,) * kp[0]) if not isinstance(cross, int) else acc
             if use_pos:
                 acc = acc + 3 * order.index(kp)
-            frames.append(xp.mod(acc, 13))
+            frames.append(xp.mod(acc, 13) + frac)
         out[kp] = xp.stack(frames)
     return out
 
@@ -163,7 +166,37 @@ def run_case(case, seed):
     dyn_order = [kp for kp in order if dyn.get(kp, 0) > 0]
     states = transitions = 0
 
-    if case["mode"] == "eager":
+    if case["mode"] == "int32":
+        # the input fields are stored as int32, the model predicts non-integer float32 values (x.5): the fed-back
+        # window must hold the predictions themselves, not a cast of them
+        iblocks = {kp: b.astype(np.int32) for kp, b in blocks.items()}
+
+        def model(x, aux):
+            out = _model_core({kp: b.astype(jnp.float32) for kp, b in x.items()}, list(x.keys()), dyn, const, past, jnp, True, 0.5)
+            return geom.MultiImage({kp: out[kp] for kp in out}, D, x.is_torus), aux
+
+        st = {kp: [[blocks[kp][ch * past + lag] for lag in range(past)] for ch in range(dyn.get(kp, 0))] for kp in order}
+        cs = {kp: [blocks[kp][dyn.get(kp, 0) * past + j] for j in range(const.get(kp, 0))] for kp in order}
+        preds = []
+        for _ in range(n):
+            cur = {kp: np.stack([f for ch in st[kp] for f in ch] + cs[kp]).astype(np.float32) for kp in order}
+            pr = _model_core(cur, order, dyn, const, past, np, True, 0.5)
+            preds.append(pr)
+            for kp in pr:
+                for ch in range(dyn[kp]):
+                    st[kp][ch] = st[kp][ch][1:] + [pr[kp][ch]]
+        x0 = geom.MultiImage({kp: jnp.asarray(iblocks[kp]) for kp in order}, D, True)
+        got, _ = ml.autoregressive_map(model, x0, None, past, n, const_dict)
+        transitions += n
+        states += n
+        for kp in dyn_order:
+            exp = np.stack([preds[s][kp][ch] for ch in range(dyn[kp]) for s in range(n)]).astype(np.float64)
+            g = np.asarray(got[kp]).astype(np.float64)
+            if g.shape != exp.shape or not np.array_equal(g, exp):
+                bad("C16/dtype/int-input", f"rollout of integer-typed input with float predictions differs from n explicit applications on block {kp} (predictions cast on feedback?)")
+                break
+        nontrivial = n >= 2
+    elif case["mode"] == "eager":
         seen_inputs = []
 
         def model(x, aux):
